@@ -154,3 +154,20 @@ Theorem C06_value_column_setter : forall f a,
   /\ f_column (fst (assign_value_column f (VStr s_auto))) = ColAuto.
 Proof. exact value_column_setter. Qed.
 Print Assumptions C06_value_column_setter.
+
+(* ---- "the caller's format object is left unchanged" (heap level; the framework model of C07).  write_string with the
+   default stack and ANY per-block body within its footprint, then writer.write, which deep-copies the format before it
+   replaces 'auto' by a number: the format object itself, and every object reachable from it, is exactly what it was;
+   so is every other pre-existing object.  Stated with the executable deep copy (proved an instance of the contract
+   assumed of copy.deepcopy: C07_deepcopy_exec_contract), hence without any hypothesis on the copy. *)
+From BP Require Import Model.Heap Model.HeapMw Spec.C07 Proofs.HeapProofs Proofs.HeapCopyTotal.
+Theorem C06_format_unchanged : forall bd at_auto at_col h lib fmt h',
+  footprint_ok bd -> wf_heap h -> In lib (dom h) -> In fmt (dom h) ->
+  write_string_mw deepcopy_exec bd at_auto at_col h lib fmt = Some h' ->
+  lookup h' fmt = lookup h fmt /\ (forall p, reach h' fmt p <-> reach h fmt p) /\ unchanged h h'.
+Proof.
+  intros bd a1 a2 h lib fmt h' F W L D E.
+  destruct (write_string_ok deepcopy_exec deepcopy_exec_contract bd a1 a2 h lib fmt h' F W L D E) as (_ & U & _ & R).
+  split; [exact (U fmt D) | split; [exact R | exact U]].
+Qed.
+Print Assumptions C06_format_unchanged.
